@@ -1,0 +1,16 @@
+//go:build verif
+
+package parser
+
+import (
+	"github.com/DDP-Projekt/Kompilierer/src/ast"
+	"github.com/DDP-Projekt/Kompilierer/src/token"
+)
+
+// Exports for the verification harness in /verif (only compiled with -tags verif).
+// The alias store (alias_trie.Trie) is instantiated by the parser with these two
+// unexported key predicates; model-based tests need the very same functions.
+
+func VerifTokenEqual(t1, t2 *token.Token) bool { return tokenEqual(t1, t2) }
+func VerifTokenLess(t1, t2 *token.Token) bool  { return tokenLess(t1, t2) }
+func VerifSortAliases(aliases []ast.Alias)     { sortAliases(aliases) }
